@@ -55,9 +55,19 @@ class MotifRef:
         self.bin = bin_size
         # first integer score whose exact tail probability is below the threshold
         self.t_int = None
+        self.tie_at_threshold = False
         for k in range(len(self.tail) + 1):
             lt = -numpy.inf if k == len(self.tail) or self.tail[k] == 0 else math.log2(int(self.tail[k])) - 2 * self.w
             if abs(lt - log_threshold) < 1e-9:
+                # the exact tail probability equals the threshold (e.g. threshold 4^-w): "below the threshold" is strict, so this bin
+                # does not qualify - provided the implementation's own table holds exactly that value; a table entry that merely
+                # rounds to either side of it is a genuine numerical ambiguity and the case is skipped
+                from tangermeme.tools.fimo import _pwm_to_mapping as _ptm
+                sm, tab = _ptm(numpy.ascontiguousarray(self.lp), float(bin_size))
+                b = self.lo + k - int(sm)
+                if 0 <= b < len(tab) and tab[b] == log_threshold:
+                    self.tie_at_threshold = True
+                    continue
                 raise Skip()
             if lt < log_threshold:
                 self.t_int = self.lo + k
@@ -146,7 +156,16 @@ def scan_case(case, ctx):
             arg = torch.stack([torch.tensor(numpy.array([[1.0 if ch.upper() == c else 0.0 for ch in s] for c in LET])) for s in seqs])
             if case["input"] == "numpy":
                 arg = arg.numpy()
+        if case.get("pre_call_eps"):
+            # an earlier scan with another pseudocount (same motifs, same bin size) must not influence this one
+            try:
+                fimo(motifs, arg, bin_size=case["bin_size"], eps=case["pre_call_eps"], threshold=case["threshold"], reverse_complement=case["rc"])
+            except Exception:  # noqa: BLE001
+                pass
+            ctx.label("after_call_with_other_eps")
         frames = sut(_run_fimo, case, motifs, arg)
+        for n_, p_ in zip(names, motifs_np):
+            require(torch.equal(motifs[n_], torch.tensor(p_)), "fimo-motif-modified", lambda: "the caller's PWM tensor %s was changed by the scan" % n_)
         require(isinstance(frames, list) and len(frames) == len(motifs_np), "fimo-n-frames", lambda: "%d frames for %d motifs" % (len(frames), len(motifs_np)))
         got = _frames_to_hits(frames, names, case)
         desc = "threshold=%g bin=%g eps=%g rc=%s input=%s" % (case["threshold"], case["bin_size"], case["eps"], case["rc"], case["input"])
@@ -250,6 +269,8 @@ def scan_case(case, ctx):
             ctx.label("hit_window_contains_N")
     if any(len(s) < r.w for s in seqs for r in refs):
         ctx.label("sequence_shorter_than_motif")
+    if any(r.tie_at_threshold for r in refs):
+        ctx.label("tail_probability_equals_threshold")
     if view:
         ctx.label("view_" + view)
 
@@ -305,7 +326,11 @@ def strategy(draw):
             k = draw(st.integers(0, L))
             s = s[:k].lower() + s[k:]
         seqs.append(s)
-    return {"motifs": motifs, "seqs": seqs, "threshold": draw(st.sampled_from([1e-1, 1e-2, 1e-3, 1e-4, 1e-4, 1e-5, 1e-6])),
+    thr = draw(st.sampled_from([1e-1, 1e-2, 1e-3, 1e-4, 1e-4, 1e-5, 1e-6]))
+    small = [len(m) for m in motifs if len(m) <= 8]
+    if small and draw(st.integers(0, 5)) == 0:
+        thr = 4.0 ** (-draw(st.sampled_from(small)))       # exactly the probability of one sequence: the top bin's p equals the threshold
+    return {"motifs": motifs, "seqs": seqs, "threshold": thr, "pre_call_eps": draw(st.sampled_from([None, None, None, 1e-2, 1e-3])),
             "bin_size": draw(st.sampled_from([0.1, 0.1, 0.05, 0.25, 0.5, 1.0])), "eps": draw(st.sampled_from([1e-4, 1e-4, 1e-3, 1e-2])),
             "rc": draw(st.sampled_from([True, True, False])), "input": inp, "line_width": draw(st.sampled_from([60, 7, 1000])),
             "threads": draw(st.sampled_from([1, 1, 2, 4])), "threads2": draw(st.sampled_from([1, 3, 8, 16])),
